@@ -408,12 +408,29 @@ def predict_eff(ctx):
                 norm_text(v.args[0].elts[0]) == 'self.trajectory' and not v.keywords
             ctx.ob('TAIL-SLICE', ok, None, 'trajectory <- concat([trajectory, new rows])', f=f,
                    node=st, key='concat', why='trajectory is updated by `%s`' % norm_text(v))
-    rets = [n for n in walk_no_nested_funcs(f.node) if isinstance(n, ast.Return) and n.value
-            is not None and 'self.trajectory' in norm_text(n.value)]
+    def deref(e):
+        # a local bound exactly once stands for its definition
+        if isinstance(e, ast.Name):
+            ds = [n for n in walk_no_nested_funcs(f.node) if isinstance(n, ast.Assign) and
+                  len(n.targets) == 1 and isinstance(n.targets[0], ast.Name) and
+                  n.targets[0].id == e.id]
+            if len(ds) == 1 and e.id not in f.params:
+                return ds[0].value
+        return e
+    all_rets = [n for n in walk_no_nested_funcs(f.node) if isinstance(n, ast.Return) and
+                n.value is not None]
+    rets = [n for n in all_rets if 'self.trajectory' in norm_text(deref(n.value))]
+    if not rets:
+        # recognisably something else: the frame of the new rows alone handed out under the
+        # integrate mode; any other shape is not read by this rule
+        new_only = [n for n in all_rets if isinstance(deref(n.value), ast.Call) and
+                    f.module.resolve(deref(n.value).func, f.local_names()) == 'pandas.DataFrame']
+        ctx.need(len(new_only) >= 2 or not all_rets,
+                 'Integrator._integrate: what the integrate mode returns is not read')
     ctx.ob('TAIL-SLICE', len(rets) == 1, None, 'integrate mode returns a slice of the trajectory',
            f=f, key='ret', why='integrate mode does not return a tail of self.trajectory')
     for rn in rets:
-        v = rn.value
+        v = deref(rn.value)
         ok = False
         if isinstance(v, ast.Subscript) and norm_text(v.value) == 'self.trajectory.iloc' and \
                 isinstance(v.slice, ast.Slice) and v.slice.upper is None and v.slice.lower:
